@@ -16,26 +16,27 @@ unsigned long nondet_ulong(void);
 /* Every nondet value a harness draws goes through vt_trace_val so that the runner can
  * read the sequence of drawn values off CBMC's counterexample trace, in call order. */
 unsigned long vt_trace_val;
-static inline unsigned char vt_nd_u8(void) { unsigned char v = nondet_uchar(); vt_trace_val = v; return v; }
-static inline unsigned short vt_nd_u16(void) { unsigned short v = nondet_ushort(); vt_trace_val = v; return v; }
-static inline unsigned int vt_nd_u32(void) { unsigned int v = nondet_uint(); vt_trace_val = v; return v; }
-static inline unsigned long vt_nd_u64(void) { unsigned long v = nondet_ulong(); vt_trace_val = v; return v; }
+unsigned char vt_nd_u8(void) { unsigned char v = nondet_uchar(); vt_trace_val = v; return v; }
+unsigned short vt_nd_u16(void) { unsigned short v = nondet_ushort(); vt_trace_val = v; return v; }
+unsigned int vt_nd_u32(void) { unsigned int v = nondet_uint(); vt_trace_val = v; return v; }
+unsigned long vt_nd_u64(void) { unsigned long v = nondet_ulong(); vt_trace_val = v; return v; }
 #define VT_NONDET_DEFINED 1
 
 #define VT_CHECK(c, name) __CPROVER_assert((c), "vt_check: " name)
-#define VT_COVER(c, name) __CPROVER_cover((c))
+/* a cover point is an assertion that MUST FAIL: reachable with the condition true */
+#define VT_COVER(c, name) __CPROVER_assert(!(c), "vt_cover: " name)
 #define VT_ASSUME(c) __CPROVER_assume((c))
 
 /* exactly-sized heap object with arbitrary contents; the bytes are drawn lazily by CBMC
  * (malloc'd memory is nondet), the *size* is what the replay needs and it was drawn by
  * the harness through vt_nd_*.  The contents are read back from the trace by name. */
-static inline unsigned char* vt_alloc_bytes(unsigned long n)
+unsigned char* vt_alloc_bytes(unsigned long n)
 {
   unsigned char* p = malloc(n);
   __CPROVER_assume(p != 0);
   return p;
 }
-static inline void vt_free_bytes(unsigned char* p) { free(p); }
+void vt_free_bytes(unsigned char* p) { free(p); }
 #else
 unsigned char vt_nd_u8(void);
 unsigned short vt_nd_u16(void);
